@@ -739,25 +739,25 @@ def single_real2(draw):
 
 
 LAWS = [
-    Law("hom_sl2_irrep", irrep_case(), body_irrep, nt, quick=200, thorough=2000, shards=(1, 4)),
-    Law("hom_sl2_to_so21", pair_real2(allow_gl=True), body_so21, nt, quick=200, thorough=2000,
+    Law("hom_sl2_irrep", irrep_case(), body_irrep, nt, quick=200, thorough=1400, shards=(1, 4)),
+    Law("hom_sl2_to_so21", pair_real2(allow_gl=True), body_so21, nt, quick=200, thorough=1400,
         shards=(1, 4)),
-    Law("hom_gln_adjoint", adj_case("gln"), body_adjoint("gln"), nt, quick=100, thorough=1000,
+    Law("hom_gln_adjoint", adj_case("gln"), body_adjoint("gln"), nt, quick=100, thorough=700,
         shards=(1, 4)),
-    Law("hom_sln_adjoint", adj_case("sln"), body_adjoint("sln"), nt, quick=100, thorough=1000,
+    Law("hom_sln_adjoint", adj_case("sln"), body_adjoint("sln"), nt, quick=100, thorough=700,
         shards=(1, 4)),
-    Law("hom_slc_to_slr", slc_case(), body_slc, nt, quick=150, thorough=1500, shards=(1, 4)),
-    Law("hom_sl2c_to_so31", so31_case(), body_so31, nt, quick=150, thorough=1500, shards=(1, 4)),
-    Law("hom_block_include", block_case(), body_block, nt, quick=100, thorough=1000, shards=(1, 2)),
-    Law("structure_preserved", structure_case(), body_structure, nt, quick=150, thorough=1500,
+    Law("hom_slc_to_slr", slc_case(), body_slc, nt, quick=150, thorough=1050, shards=(1, 4)),
+    Law("hom_sl2c_to_so31", so31_case(), body_so31, nt, quick=150, thorough=1050, shards=(1, 4)),
+    Law("hom_block_include", block_case(), body_block, nt, quick=100, thorough=700, shards=(1, 2)),
+    Law("structure_preserved", structure_case(), body_structure, nt, quick=150, thorough=1050,
         shards=(1, 4)),
-    Law("arrays_vs_loop", array_case(), body_arrays, nt, quick=200, thorough=2000, shards=(1, 4)),
-    Law("hom_wrappers", wrapper_case(), body_wrappers, nt, quick=150, thorough=1500, shards=(1, 4)),
+    Law("arrays_vs_loop", array_case(), body_arrays, nt, quick=200, thorough=1400, shards=(1, 4)),
+    Law("hom_wrappers", wrapper_case(), body_wrappers, nt, quick=150, thorough=1050, shards=(1, 4)),
     Law("o_to_pgl_inverts_sl2_to_so21", single_real2(), body_o_to_pgl_inverse, nt, quick=250,
-        thorough=2500, shards=(1, 4)),
+        thorough=1750, shards=(1, 4)),
     Law("o_to_pgl_homomorphism_up_to_sign", pair_real2(allow_neg=True), body_o_to_pgl_hom, nt,
-        quick=250, thorough=2500, shards=(1, 4)),
-    Law("isometry_to_sl2", pair_real2(allow_neg=True), body_to_sl2, nt, quick=150, thorough=1500,
+        quick=250, thorough=1750, shards=(1, 4)),
+    Law("isometry_to_sl2", pair_real2(allow_neg=True), body_to_sl2, nt, quick=150, thorough=1050,
         shards=(1, 4)),
     Law("sl2_iso_documented_examples", None, body_doc_examples, nt,
         exhaustive=exhaustive_doc_examples),
